@@ -81,7 +81,14 @@ def split_spec(spec, rng, nfiles):
     cuts = [i for i in range(1, len(recs)) if (recs[i - 1]["contig"], recs[i - 1]["pos"]) < (recs[i]["contig"], recs[i]["pos"])]
     if not cuts:
         return None
-    chosen = sorted(rng.sample(cuts, min(len(cuts), nfiles - 1)))
+    # prefer cut points where the record before the cut spans (multi-base REF / END=) up to or beyond the next record's
+    # position: the pieces' POS ranges are disjoint, their reference spans are not
+    spanning = [i for i in cuts if recs[i - 1]["contig"] == recs[i]["contig"]
+                and recs[i - 1]["pos"] + vcfgen.rlen_of(recs[i - 1]) - 1 >= recs[i]["pos"]]
+    k = min(len(cuts), nfiles - 1)
+    first = rng.sample(spanning, min(len(spanning), max(1, k // 2))) if spanning else []
+    rest = [c for c in cuts if c not in first]
+    chosen = sorted(first + rng.sample(rest, min(len(rest), k - len(first))))
     pieces, a = [], 0
     for c in chosen + [len(recs)]:
         pieces.append(recs[a:c])
